@@ -18,6 +18,11 @@ def configs(tier):
         out.append(ivp.Cfg(layout, "dynamic", "filter", "ts1", q=2, d=1, relin=True))
         out.append(ivp.Cfg(layout, "none", "fixedinterval", "ts0", q=1, d=2))
         out.append(ivp.Cfg(layout, "none", "fixedpoint", "ts1", q=1, d=1))
+    # Taylor points that may depend on the covariance of the random variable they are given (dense TS1): abstract rule
+    out.append(ivp.Cfg("dense", "none", "filter", "ts1", q=1, d=1, taylor="abstract"))
+    out.append(ivp.Cfg("dense", "dynamic", "filter", "ts1", q=1, d=1, relin=True, taylor="abstract"))
+    out.append(ivp.Cfg("dense", "dynamic", "filter", "ts1", q=1, d=1, relin=False, taylor="abstract"))
+    out.append(ivp.Cfg("dense", "mle", "fixedinterval", "ts1", q=1, d=1, taylor="abstract"))
     # thorough tier only: larger shapes and mixed configurations
     extra = [
         ivp.Cfg("dense", "none", "filter", "ts1", q=3, d=2), ivp.Cfg("isotropic", "none", "filter", "ts0", q=3, d=3),
